@@ -26,15 +26,16 @@ type Violation struct {
 
 // Result is what one worker process reports to the parent.
 type Result struct {
-	Evaluations     int64             `json:"evaluations"`
-	Counters        map[string]int64  `json:"counters"`
-	Shapes          []uint64          `json:"shapes"`
-	Samples         []json.RawMessage `json:"samples"`
-	Violations      []Violation       `json:"violations"`
-	ViolationCounts map[string]int64  `json:"violation_counts"`
-	Exhaustive      map[string]bool   `json:"exhaustive"`
-	Notes           []string          `json:"notes"`
-	Done            bool              `json:"done"`
+	Evaluations     int64               `json:"evaluations"`
+	Counters        map[string]int64    `json:"counters"`
+	Shapes          []uint64            `json:"shapes"`
+	ShapeCats       map[string][]uint64 `json:"shape_cats"` // shape hashes per category (first argument of Shape when it is a string)
+	Samples         []json.RawMessage   `json:"samples"`
+	Violations      []Violation         `json:"violations"`
+	ViolationCounts map[string]int64    `json:"violation_counts"`
+	Exhaustive      map[string]bool     `json:"exhaustive"`
+	Notes           []string            `json:"notes"`
+	Done            bool                `json:"done"`
 }
 
 // Ctx is handed to every monitor.
@@ -58,9 +59,10 @@ type Ctx struct {
 	curCase int64
 	caseSeq int64 // incremented on every case start (read by the worker watchdog)
 
-	res     Result
-	shapes  map[uint64]struct{}
-	nSample map[string]int
+	res      Result
+	shapes   map[uint64]struct{}
+	shapeCat map[string][]uint64
+	nSample  map[string]int
 }
 
 // NewCtx creates a context. progressPath may be empty.
@@ -178,7 +180,19 @@ func (c *Ctx) Shape(parts ...interface{}) {
 		fmt.Fprint(h, p)
 		h.Write([]byte{0x1f})
 	}
-	c.shapes[h.Sum64()] = struct{}{}
+	sum := h.Sum64()
+	if _, seen := c.shapes[sum]; !seen {
+		c.shapes[sum] = struct{}{}
+		if cat, ok := parts[0].(string); ok && len(parts) > 1 {
+			if c.shapeCat == nil {
+				c.shapeCat = map[string][]uint64{}
+			}
+			if _, have := c.shapeCat[cat]; !have && len(c.shapeCat) >= 200 {
+				cat = "(other)"
+			}
+			c.shapeCat[cat] = append(c.shapeCat[cat], sum)
+		}
+	}
 }
 
 // ShapeHash records an already hashed shape (cheap path for dense sweeps).
@@ -278,6 +292,7 @@ func (c *Ctx) Finish(path string) error {
 		c.res.Shapes = append(c.res.Shapes, h)
 	}
 	sort.Slice(c.res.Shapes, func(i, j int) bool { return c.res.Shapes[i] < c.res.Shapes[j] })
+	c.res.ShapeCats = c.shapeCat
 	b, err := json.Marshal(&c.res)
 	if err != nil {
 		return err
